@@ -218,6 +218,7 @@ pub fn run_controlled<R: Send + 'static>(bodies: Vec<Box<dyn FnOnce() -> R + Sen
     let mut consecutive = 0usize;
     let mut run_labels: Vec<&'static str> = vec![];
     let mut fair_switches = 0u32;
+    let mut last_run: Vec<usize> = vec![0; n];
     let mut preemptions = 0u32;
     let mut stuck = None;
     loop {
@@ -266,6 +267,12 @@ pub fn run_controlled<R: Send + 'static>(bodies: Vec<Box<dyn FnOnce() -> R + Sen
                 // once more is a stuttering variant of one in which it does not, and offering it
                 // would let the depth-first search extend the spin by one step per schedule
                 options.retain(|&x| x != p);
+                // forced hand-over to the least recently scheduled worker, with no alternative
+                // offered: with two spinners and one worker they both wait for, a fixed order
+                // bounces between the spinners forever, and free alternatives let the depth-first
+                // search build exactly that unfair schedule, one spin round deeper per run
+                options.sort_by_key(|&x| last_run[x]);
+                options.truncate(1);
                 fair_switches += 1;
             }
         }
@@ -288,6 +295,7 @@ pub fn run_controlled<R: Send + 'static>(bodies: Vec<Box<dyn FnOnce() -> R + Sen
         }
         consecutive = if prev == Some(chosen) { consecutive + 1 } else { 1 };
         prev = Some(chosen);
+        last_run[chosen] = k + 1;
         st.turn = Some(chosen);
         s.cv.notify_all();
     }
